@@ -269,29 +269,36 @@ func runC27(c *an.Ctx) {
 	if iv := am(c, "R4", "EventFilter", "Invoke"); iv != nil {
 		star := an.Cmp{L: "$0.Event", Op: "==", R: `c:"*"`}
 		typeEq := an.Cmp{L: "(EventType).String(invoke:EventType($1))", Op: "==", R: "$0.Event"}
+		// judged per return that can answer true (a constant true, or a computed value / short-circuit
+		// expression on the ways where it can be true): reach/cut with the facts of the cut, so the shape
+		// of the function (if-chain, switch, `ok && name == NAME`) does not matter
 		nT := 0
 		for _, r := range an.Returns(iv) {
-			if !an.IsConstBool(an.ResultValues(r)[0], true) {
-				c.Add(an.IsConstBool(an.ResultValues(r)[0], false), "R4", "Invoke:boolean-results", r, "Invoke returns constants", "result enumeration")
+			if an.IsConstBool(an.ResultValues(r)[0], false) {
 				continue
+			}
+			reachTrue := func(cmps ...an.Cmp) bool {
+				var edges []an.Edge
+				for _, w := range cmps {
+					edges = append(edges, an.EdgesImplying(iv, w)...)
+				}
+				return an.ReachFrom(iv, nil, &an.Cut{Edges: edges, Facts: cmps, RetTrue: true}, func(in ssa.Instruction) bool { return in == ssa.Instruction(r) }) != nil
+			}
+			if !reachTrue() {
+				continue // cannot return true at all
 			}
 			nT++
 			if an.GuardedBy(iv, r, star) {
 				c.Add(true, "R4", "Invoke:star", r, "'*' matches every event", "edge dominance")
 				continue
 			}
-			c.Add(an.GuardedBy(iv, r, typeEq), "R4", "Invoke:type-name-equal", r, "a non-'*' filter matches only events whose type name equals the filter's event name", "edge dominance")
+			c.Add(!reachTrue(star, typeEq), "R4", "Invoke:type-name-equal", r, "a non-'*' filter matches only events whose type name equals the filter's event name", "reach/cut over {'*', type name equal}")
 			for _, k := range []struct{ ev, assert string }{{"user", "$1.(serf.UserEvent)"}, {"query", "$1.(*serf.Query)"}} {
-				var cut []an.Edge
-				cut = append(cut, an.EdgesImplying(iv, an.Cmp{L: "$0.Event", Op: "!=", R: `c:"` + k.ev + `"`})...)
-				cut = append(cut, an.EdgesImplying(iv, an.Cmp{L: "$0.Name", Op: "==", R: `c:""`})...)
-				cut = append(cut, an.EdgesImplying(iv, an.Cmp{L: k.assert + "#0.Name", Op: "==", R: "$0.Name"})...)
-				cut = append(cut, an.EdgesImplying(iv, star)...)
-				x := an.ReachFrom(iv, nil, &an.Cut{Edges: cut}, func(in ssa.Instruction) bool { return in == ssa.Instruction(r) })
-				c.Add(x == nil, "R4", "Invoke:name-equal:"+k.ev, r, "a "+k.ev+":NAME filter matches only "+k.ev+" events whose name equals NAME", "reach/cut over {event != "+k.ev+", no name given, names equal}")
+				x := reachTrue(an.Cmp{L: "$0.Event", Op: "!=", R: `c:"` + k.ev + `"`}, an.Cmp{L: "$0.Name", Op: "==", R: `c:""`}, an.Cmp{L: k.assert + "#0.Name", Op: "==", R: "$0.Name"}, star)
+				c.Add(!x, "R4", "Invoke:name-equal:"+k.ev, r, "a "+k.ev+":NAME filter matches only "+k.ev+" events whose name equals NAME", "reach/cut over {event != "+k.ev+", no name given, names equal}")
 			}
 		}
-		c.Add(nT == 2, "R4", "Invoke:true-sites", iv, "Invoke has exactly the two accepting exits ('*' and full match)", "result enumeration")
+		c.Add(nT >= 2, "R4", "Invoke:true-sites", iv, "Invoke has accepting exits for '*' and for a full match", "result enumeration")
 	}
 
 	// ---- R5
